@@ -114,6 +114,28 @@ Section WithIp.
       end
     else true.
 
+  (* ---- from the raw sniffed value to the name the control plane works with -------------------------
+     lt = the sniffed value, blanks trimmed and lower-cased.  The name is the sniffed host without port
+     and without brackets:
+       a value that carries a port            -> its host           (name:port, v4:port, [v6]:port)
+       a bracketed IP literal                 -> the literal        ([v6])
+       a bare IP literal                      -> itself
+       anything else without a bracket        -> itself minus one trailing dot   (host names, empty)
+     None = no promise (brackets that do not enclose a clean IP literal; a colon in something that is not
+     an IP literal; a literal ending in a dot, which only a dotted zone identifier can produce). *)
+  Definition spec_sniffed_host (lt : str) : option str :=
+    match split_host_port lt with
+    | Some (h, _) => if negb (contains c_colon h) || is_ip h then Some h else None
+    | None =>
+        if has_prefix1 c_lbr lt && has_suffix1 c_rbr lt then
+          let a := drop_first_last lt in
+          if is_ip a && no_brackets a then Some a else None
+        else if negb (no_brackets lt) then None
+        else if is_ip lt then (if has_suffix1 c_dot lt then None else Some lt)
+        else if contains c_colon lt then None
+        else Some (trim_suffix_dot lt)
+    end.
+
   Definition denotes (target : str) (e : str * str) : bool :=
     match split_host_port target with
     | Some (h, p) => str_eqb h (fst e) && str_eqb p (snd e)
